@@ -71,11 +71,12 @@ Qed.
    datagrams not carrying the tunnel's magic under a sender's address, and inject ARBITRARY bytes
    under any other address: every buffer handed to the receiver under the address of a sender is
    bit-identical to a Message that this sender was given.  (Fragments of different Messages or of
-   different senders are never combined.) *)
+   different senders are never combined.)  No relation between the MTUs is assumed: a receiver with
+   a smaller MTU sees truncated datagrams. *)
 Theorem tunnel_sound :
   forall (rc : rcfg) (who : addr -> option sender_run) (net : list (addr * packet)) t out,
     rc_misc rc = false -> 4 <= rc_mtu rc ->
-    (forall a s, who a = Some s -> sr_ok s /\ sc_mtu (sr_cfg s) <= rc_mtu rc) ->
+    (forall a s, who a = Some s -> sr_ok s) ->
     (forall a s p, who a = Some s -> In (a, p) net -> In p (sr_packets s) \/ foreign (rc_magic rc) p) ->
     recv_all rc [] net = (t, out) ->
     forall a s m, who a = Some s -> In (a, m) out -> In m (sr_msgs s).
@@ -85,18 +86,14 @@ Proof.
   assert (Hgen : forall b p h, In (b, p) net -> who' b = Some h ->
                    NoDup (map fst h) /\ Forall (valid h) (frags_of rc p)).
   { intros b p h Hbp Hb. unfold who' in Hb. destruct (who b) as [sb|] eqn:Ewb; [|discriminate].
-    injection Hb as <-. destruct (Hok b sb Ewb) as [Hsok Hmtub].
+    injection Hb as <-. pose proof (Hok b sb Ewb) as Hsok.
     split.
     - destruct Hsok as (_ & Hid & _ & Hlen & _). now apply assign_nodup.
     - unfold frags_of. destruct (Hnet b sb p Ewb Hbp) as [Hsent|Hfor].
       + destruct (sent_packets_spec sb Hsok) as (fss & pend & Epk & Hv & Hw & Hsz & _).
         rewrite Epk in Hsent. apply in_map_iff in Hsent as (fs & <- & Hfs).
-        rewrite Forall_forall in Hv, Hw, Hsz.
-        assert (Hl : lenN (enc_frags fs) <= rc_mtu rc).
-        { specialize (Hsz (enc_frags fs)). rewrite Epk in Hsz. specialize (Hsz (in_map _ _ _ Hfs)). lia. }
-        rewrite takeN_all by exact Hl.
-        rewrite parse_enc; [|now apply Hw|apply length_enc_frags].
-        apply accepted_Forall. now apply Hv.
+        rewrite Forall_forall in Hv, Hw.
+        apply parse_truncated_Forall; [now apply Hw|now apply Hv].
       + rewrite parse_foreign; [constructor|]. unfold foreign in Hfor. now rewrite first_word_takeN. }
   destruct (recv_all_sound rc who' net [] t out Hmisc Hgen (tbl_good_nil _) Hrun) as [_ Hout].
   specialize (Hout a m (sr_hist s) Hin). unfold who' in Hout. rewrite Ha in Hout. specialize (Hout eq_refl).
